@@ -136,11 +136,13 @@ type Sched struct {
 	// (its own lateness is the scheduler's doing and must not be judged).
 	LagStrict bool
 
-	Switches    int
-	LockWaits   int
-	TimeJumps   int
-	Adopted     int
-	StableCount int
+	Switches  int
+	LockWaits int
+	TimeJumps int
+	Adopted   int
+	// multi-case selects whose cases were tried in a drawn, non-source order
+	SelectReorders int
+	StableCount    int
 }
 
 type Violation struct {
@@ -160,6 +162,7 @@ var (
 //go:norace
 func init() {
 	verifsim.Hook = globalHook
+	verifsim.SelectHook = globalSelectHook
 	verifsim.RootProbe = func() int {
 		s := curSched.Load()
 		if s == nil {
@@ -170,6 +173,25 @@ func init() {
 		}
 		return 0
 	}
+}
+
+// globalSelectHook decides the order in which the cases of a multi-case select
+// are tried (the Go runtime's own choice among ready cases is random and not
+// seedable). The caller is the only running goroutine of the bubble: a task
+// right after its #select scheduling point, or the root.
+//
+//go:norace
+func globalSelectHook(site string, n int) int {
+	s := curSched.Load()
+	if s == nil {
+		return -1
+	}
+	k := s.T.Intn(verifsim.SelectPerms(n), "select-order") // tape.go is go:norace as well
+	if k != 0 {
+		s.SelectReorders++
+		s.Note("select order %d at %s", k, site)
+	}
+	return k
 }
 
 //go:norace
